@@ -28,6 +28,32 @@ CLAIMS: dict[str, tuple[str, str, str, str]] = {
         "Lean 4 proof (invariant by induction over operation histories) + differential correspondence",
         "§6 C11",
     ),
+    "C13": (
+        "FULL on the model: theorem C13.interleave — for every number of threads, every schedule of atomic "
+        "steps (re-entrancy = one thread running inside another) and every coherent initial cache incl. "
+        "None (first use / freshly reconfigured), each thread's responses are a prefix of, and when finished "
+        "equal to, its solo responses; r2_never_none: the second read never sees an unpublished cache. The "
+        "pre-fix publish-then-fill code is in the file with a decided counter-example schedule. Tie: "
+        "single-stepped getRules/__compile__ (sys.monitoring INSTRUCTION) must show the model's cache "
+        "value sequence; shared-write audit; pre-emption exploration at bytecode granularity with a hang "
+        "watchdog, nested pre-emption, real threads. Partial: the reduction of a parse to its chain "
+        "requests and the GIL's per-bytecode atomicity are assumed (tied by the write audit), not proved.",
+        NOTE + "GIL atomicity of one bytecode; free-threaded builds and dependency-internal caches out of scope.",
+        "Lean 4 proof (invariant over all interleavings of atomic steps) + bytecode-level pre-emption exploration",
+        "§6 C13",
+    ),
+    "C14": (
+        "FULL on the model: parse_intact — for every event sequence a parse/render performs on the instance "
+        "(chain requests, user-callback invocations) and every fault plan, rules/options/render rules are "
+        "unchanged and all rulers coherent; the exception propagates. reset_restores — for every body "
+        "(closed under sequencing, ruler ops, facade ops, raises, nested blocks) on every exit path the "
+        "active rules equal those on entry, under the stated distinct-names hypothesis. Tie: fault "
+        "enumeration on the implementation at every (callback slot, i-th invocation) incl. BaseException, "
+        "instance snapshot + probe renders compared; reset_rules bodies compared with the model.",
+        NOTE + "A parse is abstracted to its instance-visible events; that nothing else is written is checked, not proved.",
+        "Lean 4 proof (induction over events / bodies) + fault enumeration on the implementation",
+        "§6 C14",
+    ),
 }
 
 PENDING_REASON = "check under construction in this session (Lean model + theorems not yet committed); not claimed until its check exists"
